@@ -7,6 +7,8 @@ from .. import paths, waiters
 from ..core import FUNC, call_attr, calls_in, const, dotted, is_const, kwarg, norm, text, walk_local
 
 EXPLANATION = [
+    'C13.stk-identifiers: the initial values of Session.ltk_rand / ltk_ediv equal the Rand / EDIV that start_encryption sends with the STK, and get_long_term_key compares the request with exactly those attributes.',
+    'C13.encrypt-source: the long-term key Device.encrypt puts into LE Enable Encryption is assigned only from the key-store record of the peer (keys.ltk*.value); pairing sessions are not consulted there.',
     'C13.uncalled-predicate: done / cancelled / is_set / locked / empty used as truth values are called (a bound method is always true).',
     "C13.ltk-chain: the controller's long-term-key request reaches the pairing session with its arguments in the declared order: the arguments of `Host.long_term_key_provider(...)` have the field types the slot's Callable annotation lists, and along the get_long_term_key chain no Name argument sits at the position of a differently named parameter of the callee.",
     "C13.identity: no `is` / `is not` comparison in the anchored modules has an operand declared as a number, byte string or string (identity of equal integers holds only inside CPython's small-integer cache, so such a test is right for values up to 256 and wrong afterwards).",
@@ -807,7 +809,52 @@ def uncalled_predicate_rule(ctx):
     uncalled_predicate(ctx, 'C13.uncalled-predicate', ['bumble.smp', 'bumble.pairing'])
 
 
+def encrypt_source(ctx):
+    """"each side's store yields the same key for the central's encryption request": the long-term key the central puts in
+    LE Enable Encryption comes from the key store record of the peer (ltk, or the LTK the peer distributed to it), never from
+    a pairing session object -- a legacy session's own `ltk` is the key this side generated and gave away, not the one the
+    peer will look up."""
+    R, p = ctx.r, ctx.p
+    rule = 'C13.encrypt-source'
+    fn = p.find('bumble.device.Device.encrypt')
+    if fn is None:
+        R.bad(rule, 'bumble.device.Device.encrypt', 'anchor missing')
+        return
+    sends = [c for c in calls_in(fn) if call_attr(c) == 'HCI_LE_Enable_Encryption_Command']
+    R.check(len(sends) >= 1, rule, 'bumble.device.Device.encrypt | LE Enable Encryption', f'{len(sends)} site(s)', 'the command is no longer built here', p.loc(fn))
+    for c in sends:
+        k = kwarg(c, 'long_term_key')
+        nm = k.id if isinstance(k, ast.Name) else None
+        srcs = [norm(s_.value) for s_ in walk_local(fn) if isinstance(s_, ast.Assign) and nm and any(isinstance(t, ast.Name) and t.id == nm for t in s_.targets)]
+        bad = [s_ for s_ in srcs if not (s_.startswith('keys.ltk') and s_.endswith('.value'))]
+        R.check(bool(srcs) and not bad, rule, 'bumble.device.Device.encrypt | long_term_key', f'taken from the key store record ({sorted(set(srcs))})', f'the key sent in LE Enable Encryption can come from {bad}: after a legacy pairing the session holds the LTK this device distributed, while the peripheral answers with the one it distributed, so re-encryption uses two different keys', p.loc(c))
+    sess = [c for c in calls_in(fn) if 'smp_manager' in (dotted(c.func) or '') or 'session' in (dotted(c.func) or '').lower()]
+    R.check(not sess, rule, 'bumble.device.Device.encrypt | no session lookup', 'the pairing sessions are not consulted', f'Device.encrypt consults the pairing session ({[norm(c)[:50] for c in sess][:1]})', p.loc(fn))
+
+
+def stk_identifiers(ctx):
+    """During legacy pairing the link is first encrypted with the STK under Rand = 0 / EDIV = 0.  Three places must agree on
+    those constants: start_encryption sends them, the responder's get_long_term_key recognises the STK request by comparing
+    with self.ltk_rand / self.ltk_ediv, and Session.__init__ gives these their initial values."""
+    R, p = ctx.r, ctx.p
+    rule = 'C13.stk-identifiers'
+    init = p.find(f'{S}.__init__')
+    se = p.find(f'{S}.start_encryption')
+    gl = p.find(f'{S}.get_long_term_key')
+    if init is None or se is None or gl is None:
+        R.bad(rule, f'{S}.__init__ / start_encryption / get_long_term_key', 'anchor missing')
+        return
+    iv = {dotted(s_.targets[0]): norm(s_.value) for s_ in walk_local(init) if isinstance(s_, ast.Assign) and dotted(s_.targets[0]) in ('self.ltk_rand', 'self.ltk_ediv')}
+    cmd = next((c for c in calls_in(se) if call_attr(c) == 'HCI_LE_Enable_Encryption_Command'), None)
+    sent = {'self.ltk_rand': norm(kwarg(cmd, 'random_number')) if cmd is not None and kwarg(cmd, 'random_number') is not None else None, 'self.ltk_ediv': norm(kwarg(cmd, 'encrypted_diversifier')) if cmd is not None and kwarg(cmd, 'encrypted_diversifier') is not None else None}
+    R.check(iv == sent and None not in sent.values(), rule, f'{S} | STK Rand / EDIV', f'initial values {iv} = what start_encryption sends', f'Session.__init__ sets {iv} but start_encryption asks for encryption with {sent}: the responder compares the request with its own ltk_rand / ltk_ediv, never recognises the STK request and answers with no key (or a stale bonded one) while the initiator encrypts with the STK', p.loc(init))
+    cmp_ok = all(any(isinstance(c, ast.Compare) and {norm(c.left), norm(c.comparators[0])} == {a.split('.')[-1].replace('ltk_', ''), a} for c in ast.walk(gl)) for a in ('self.ltk_rand', 'self.ltk_ediv'))
+    R.check(cmp_ok, rule, f'{S}.get_long_term_key | STK request recognised', 'the requested rand / ediv are compared with self.ltk_rand / self.ltk_ediv', 'the STK request is no longer recognised by its Rand / EDIV', p.loc(gl))
+
+
 RULES = [
+    ('C13.stk-identifiers', stk_identifiers),
+    ('C13.encrypt-source', encrypt_source),
     ('C13.uncalled-predicate', uncalled_predicate_rule),
     ('C13.ltk-chain', ltk_chain),
     ('C13.identity', identity_rule),
